@@ -54,12 +54,13 @@ def rule(prog, rule_):
     for (bid, i, node) in stores:
         n += 1
         key = "cif_loop_set_category:L%s:%s" % (node.get("l"), show(node)[:40])
+        kind = "update-step" if node.get("k") == "call" else "cached-category#%d" % sum(1 for (b2, i2, n2) in stores[:n] if n2.get("k") != "call")
         if not edges_a or not cfgq.must_pass_edge(fn, bid, edges_a):
-            rule_.violation(fn.file, fn.name, node.get("l"), "scalar-category-can-be-given:L%s" % node.get("l"),
+            rule_.violation(fn.file, fn.name, node.get("l"), "scalar-category-can-be-given:" + kind,
                             "`%s` is reached on a path that has not found the new category to be NULL or to begin with a character: "
                             "the reserved category \"\" can be given to a loop" % show(node)[:50])
         elif not exam or not cfgq.must_precede(fn, (bid, i), exam):
-            rule_.violation(fn.file, fn.name, node.get("l"), "scalar-category-can-be-taken:L%s" % node.get("l"),
+            rule_.violation(fn.file, fn.name, node.get("l"), "scalar-category-can-be-taken:" + kind,
                             "`%s` is reached on a path that has not examined the loop's present category: the reserved category "
                             "\"\" can be taken from the scalar loop (by a new category of NULL, for one)" % show(node)[:50])
         else:
